@@ -271,7 +271,11 @@ func isOldRef(t *Term) bool {
 	case KSym:
 		return strings.HasPrefix(t.Name, "in.") || strings.HasPrefix(t.Name, "g.")
 	case KApp:
-		return strings.HasPrefix(t.Name, "H0.") || strings.HasPrefix(t.Name, "acc.") || strings.HasPrefix(t.Name, "tok.") || strings.HasPrefix(t.Name, "old.")
+		if strings.HasPrefix(t.Name, "H0.") {
+			// the initial heap is closed under reachability from old objects only
+			return len(t.Args) == 0 || isOldRef(t.Args[0])
+		}
+		return strings.HasPrefix(t.Name, "acc.") || strings.HasPrefix(t.Name, "tok.") || strings.HasPrefix(t.Name, "old.")
 	case KInt:
 		return t.I == 0
 	case KAlloc:
@@ -601,6 +605,7 @@ func (t *Term) walk(f func(*Term)) {
 // ---------------------------------------------------------------- SMT-LIB2
 
 type smtCtx struct {
+	marks   []callMark
 	bound   map[string]bool
 	decls   map[string]string
 	order   []string
@@ -639,6 +644,9 @@ func (c *smtCtx) emit(t *Term) string {
 		}
 		return fmt.Sprintf("strlit!%d", id)
 	case KSym:
+		if t.Name == "ALLOC0" {
+			return "ALLOC0"
+		}
 		n := smtName(t.Name)
 		if !c.bound[t.Name] {
 			c.declare(n, fmt.Sprintf("(declare-fun %s () %s)", n, t.S))
@@ -648,7 +656,15 @@ func (c *smtCtx) emit(t *Term) string {
 		if t.I < initAllocBoundary {
 			return strconv.FormatInt(t.I+1, 10)
 		}
-		return fmt.Sprintf("(+ ALLOC0 %d)", t.I-initAllocBoundary+1)
+		base := "ALLOC0"
+		off := t.I - initAllocBoundary + 1
+		for _, m := range c.marks {
+			if int64(m.nAtCall) <= t.I {
+				base = c.emit(m.wmpost)
+				off = t.I - int64(m.nAtCall) + 1
+			}
+		}
+		return fmt.Sprintf("(+ %s %d)", base, off)
 	case KPlace:
 		return fmt.Sprintf("(- 0 %d)", 1000000+t.I)
 	case KFunc:
@@ -673,7 +689,7 @@ func (c *smtCtx) emit(t *Term) string {
 		bv := t.Args[0]
 		c.bound[bv.Name] = true
 		body := c.emit(t.Args[1])
-		return "(forall ((" + smtName(bv.Name) + " Int)) " + body + ")"
+		return "(forall ((" + smtName(bv.Name) + " " + bv.S.String() + ")) " + body + ")"
 	}
 	var args []string
 	for _, a := range t.Args {
@@ -703,8 +719,8 @@ func (c *smtCtx) emit(t *Term) string {
 }
 
 // smtQuery renders "assumptions and not goal" as an SMT-LIB2 script.
-func smtQuery(assumptions []*Term, goal *Term) string {
-	c := &smtCtx{decls: map[string]string{}, strLits: map[string]int{}, bound: map[string]bool{}}
+func smtQuery(assumptions []*Term, goal *Term, marks []callMark) string {
+	c := &smtCtx{decls: map[string]string{}, strLits: map[string]int{}, bound: map[string]bool{}, marks: marks}
 	var body []string
 	for _, a := range assumptions {
 		body = append(body, "(assert "+c.emit(a)+")")
